@@ -390,7 +390,10 @@ func C10(c *core.Ctx) {
 				c.Violation("panic", "c10-panic:"+e.name, e.name+" panicked on a "+in.kind+" input", replay)
 				continue
 			case "hang":
-				if oversizedCount(in.b) && e.slice {
+				if oversizedCount(in.b) {
+					// slice or stream path: the time goes into allocating (and zeroing) for the declared
+					// count; whether that ends in an out-of-memory error or in a very long allocation
+					// depends on the memory limits of the machine
 					c.Violation("alloc", "c10-alloc-declared-size", fmt.Sprintf("%s (%s) was still allocating for a declared count after 15 s on a %d-byte input", e.name, e.path, len(in.b)), replay)
 					continue
 				}
